@@ -565,7 +565,10 @@ def run_comments2(job, acc):
     pos = [i for i in range(len(toks) - 1) if i not in protect]
     idx = 0
     for p1, p2 in itertools.combinations(pos, 2):
-        for c1, c2 in ((" /* c */ ", " /* d */ "), (" // c\n", " /* d */ ")):
+        for c1, c2 in ((" /* c */ ", " /* d */ "), (" // c\n", " /* d */ "),
+                       # a comment whose text holds the OTHER kind's opener (a URL, a commented-out comment): inside a
+                       # block comment '//' means nothing, inside a line comment '/*' means nothing
+                       (" /* see u://v */ ", " /* d */ "), (" // c /* e\n", " /* d */ ")):
             idx += 1
             if idx % job["of"] != job["chunk"]:
                 continue
